@@ -1462,9 +1462,10 @@ def set_seq_zo_fo_absorption(model: Model):
             )
         elif not depot and not have_ZO:
             model = set_first_order_absorption(model)
-            depot = model.statements.ode_system.find_depot(model.statements)
+            odes = get_and_check_odes(model)
+            to_comp = odes.find_depot(model.statements) or odes.dosing_compartments[0]
             model = _add_zero_order_absorption(
-                model, Bolus(dose_comp.doses[0].amount), depot, 'MDT'
+                model, Bolus(dose_comp.doses[0].amount), to_comp, 'MDT'
             )
         model = model.update_source()
     return model
